@@ -30,7 +30,7 @@ COMMON_ASSUMPTIONS = [
 ]
 
 prop("C20",
-     [r_io.rule_typestate, r_io.rule_caller_owned, r_io.rule_no_escape],
+     [r_io.rule_typestate, r_io.rule_caller_owned, r_io.rule_no_escape, r_io.rule_wrapper_ownership],
      "All-paths typestate analysis over per-function CFGs with exception edges (every statement that evaluates a "
      "call, subscript, attribute or arithmetic may raise; finally/with bodies duplicated per continuation): each "
      "file handle acquired by open/io.open/codecs.open, or returned by a lasio helper summarised as "
@@ -50,7 +50,7 @@ prop("C20",
 
 prop("C19",
      [r_hdrt.rule_catchall, r_hdrt.rule_total, r_hdrt.rule_steer_lookup, r_hdrt.rule_no_state, r_hdrt.rule_flag_forward,
-      r_sec.rule_end_test, r_sec.rule_scan, r_sec.rule_line_model],
+      r_sec.rule_end_test, r_sec.rule_scan, r_sec.rule_line_model, r_hdrt.rule_parser_stateless],
      "Error-discipline analysis of the header loop (reader.parse_header_items_section): the call that parses a raw "
      "line is inside a try with a catch-all handler; by control dependence the handler raises only when "
      "ignore_header_errors is false, then raises LASHeaderError whose message derives (provenance) from the line, "
@@ -98,7 +98,8 @@ prop("C16",
                 "byte-level determinism and numeric truth are not decided.")
 
 prop("C15",
-     [r_si.rule_accessors, r_si.rule_compare, r_si.rule_get_pure, r_si.rule_setvalue_only, r_si.rule_read_pure],
+     [r_si.rule_accessors, r_si.rule_compare, r_si.rule_get_pure, r_si.rule_setvalue_only, r_si.rule_read_pure,
+      r_si.rule_no_lookup_cache],
      "Sibling cross-check of the SectionItems accessors: __contains__, __getitem__, __delitem__ and set_item relate "
      "the key to an item only through self.mnemonic_compare(key, item.mnemonic) (census of every comparison that "
      "mentions the key and an element), in a single front-to-back loop over self that leaves at the first match and "
@@ -117,7 +118,8 @@ prop("C15",
 
 prop("C13",
      [r_si.rule_suffix_after_insert, r_si.rule_suffix_algo, r_si.rule_session_only, r_si.rule_unknown, r_si.rule_compare,
-      r_si.rule_pk_state, r_wl.rule_orig_mnem, r_wl.rule_hdr_post, r_si.rule_list_primitives],
+      r_si.rule_pk_state, r_wl.rule_orig_mnem, r_wl.rule_hdr_post, r_si.rule_list_primitives, r_si.rule_pk_rebuild,
+      r_si.rule_pk_list_restore, r_si.rule_read_pure],
      "Pairing rule on CFG paths: in every SectionItems method each placement of an item through list.append/insert/"
      "__setitem__/extend is followed on every path to a normal return by assign_duplicate_suffixes, called "
      "unconditionally with the new item's useful_mnemonic; LASFile.set_data re-assigns all suffixes after renaming "
@@ -134,7 +136,8 @@ prop("C13",
                 "shape; distinctness for every multiset/history is not decided.")
 
 prop("C17",
-     [r_si.rule_pk_state, r_si.rule_pk_rebuild, r_si.rule_pk_ctor, r_si.rule_pk_independent, r_si.rule_pk_list_restore, r_si.rule_suffix_algo],
+     [r_si.rule_pk_state, r_si.rule_pk_rebuild, r_si.rule_pk_ctor, r_si.rule_pk_independent, r_si.rule_pk_list_restore, r_si.rule_suffix_algo,
+      r_wrf.rule_standardize],
      "State-coverage check: the census of attributes an item can hold (every self.X store and "
      "__setattr__('X') in HeaderItem/CurveItem) is compared with what HeaderItem.__reduce__ hands to the "
      "constructor and to __setstate__: argument 0 derives from self.original_mnemonic (not the session name), the "
@@ -260,7 +263,8 @@ prop("C01",
 prop("C09",
      [r_data.rule_tokenizer, r_data.rule_trim, r_sec.rule_title_pred, r_sec.rule_end_test, r_sec.rule_line_normalise,
       r_sec.rule_reseek, r_data.rule_wrap_count, r_sec.rule_convention, r_data.rule_orient, r_sec.rule_content_only_effects,
-      r_data.rule_read_subs, r_gr.rule_grammar, r_data.rule_engine_select, r_data.rule_tokens_kept, r_data.rule_split],
+      r_data.rule_read_subs, r_gr.rule_grammar, r_data.rule_engine_select, r_data.rule_tokens_kept, r_data.rule_split,
+      r_data.rule_subs_source],
      "Presentation-invariance clauses: the sniffer tokenises with the reader's DLM splitter (DATA.TOKENIZER); every "
      "splitter of the factory yields whitespace-free tokens - decided on the regex AST as a character set, or by strip() "
      "of each field - and comma splitting is positional (DATA.TRIM, DATA.SPLIT; COMMA and TAB trimming are recorded known "
@@ -297,7 +301,7 @@ prop("C02",
 
 prop("C04",
      [r_gr.rule_grammar, r_gr.rule_select, r_gr.rule_strip, r_hdrt.rule_no_state, r_num.rule_finite_default, r_sec.rule_route,
-      r_sec.rule_title_pred, r_wl.rule_hdr_post, r_hdrt.rule_every_line],
+      r_sec.rule_title_pred, r_wl.rule_hdr_post, r_hdrt.rule_every_line, r_hdrt.rule_parser_stateless],
      "Grammar summary by path enumeration: configure_metadata_patterns is enumerated over all consistent outcomes of its "
      "tests (same test text => same truth value), its pattern strings are constant-propagated, and each assembled "
      "pattern list is compared - as a canonical regex structure from re._parser: character classes as sets over a probe "
@@ -343,7 +347,8 @@ prop("C12",
      [r_wl.rule_ord_table, r_wl.rule_ord_bijection, r_wl.rule_key_norm, r_wl.rule_order_key, r_wl.rule_copy_vers,
       r_wl.rule_measure, r_wl.rule_template, r_num.rule_curve_raw, r_hdrt.rule_steer_lookup,
       r_data.rule_wrap_consistent, r_data.rule_wrap_tokens, r_data.rule_orient, r_data.rule_reshape, r_data.rule_wrap_count,
-      r_lp.rule_write_no_state, r_si.rule_pk_rebuild, r_data.rule_options_readonly],
+      r_lp.rule_write_no_state, r_si.rule_pk_rebuild, r_data.rule_options_readonly, r_wl.rule_version_consistency,
+      r_data.rule_null_write, r_data.rule_data_format, r_data.rule_subs_source, r_hdrt.rule_parser_stateless],
      "Order-table agreement: the folded defaults.ORDER_DEFINITIONS has every version the writer admits, all four "
      "sections per version, well-formed (order, mnemonics) exceptions, 1.x ~Well = descr:value except STRT/STOP/STEP/NULL "
      "and 2.x/3.0 = value:descr throughout; reader (SectionParser.__init__) and writer (get_section_order_function) "
@@ -362,7 +367,8 @@ prop("C11",
      [r_wl.rule_template, r_wl.rule_measure, r_wl.rule_order_key, r_wl.rule_orig_mnem, r_si.rule_session_only,
       r_si.rule_pk_state, r_wrf.rule_refresh, r_wrf.rule_standardize, r_gr.rule_grammar, r_gr.rule_strip, r_wl.rule_key_norm,
       r_wl.rule_ord_bijection, r_data.rule_wrap_count, r_data.rule_wrap_tokens, r_data.rule_data_format, r_data.rule_wrap_consistent,
-      r_lp.rule_write_no_state, r_si.rule_pk_rebuild, r_si.rule_pk_list_restore, r_num.rule_numlit, r_wl.rule_hdr_post],
+      r_lp.rule_write_no_state, r_si.rule_pk_rebuild, r_si.rule_pk_list_restore, r_num.rule_numlit, r_wl.rule_hdr_post,
+      r_wl.rule_version_consistency, r_wl.rule_ord_table],
      "Necessary conditions of the read->write fixed point only: the writer's template puts '.' directly before the unit "
      "and ' : ' before the tail, which the reader's structurally decided grammar splits back (WR.TEMPLATE, HDR.GRAMMAR) - "
      "no fields migrating between unit, value and description requires also that widths are measured on final values and "
